@@ -160,7 +160,7 @@ def main():
         try:
             s, newline = apply(path, mid, tmp)
             env = dict(os.environ, VERIF_REPO=tmp, VERIF_BUILD=os.path.join(tmp, 'build'), PYTHONDONTWRITEBYTECODE='1')
-            p = subprocess.run(['/venv/bin/python', '-c', 'import sys; sys.path.insert(0, sys.argv[1]); import lazy_dataset, lazy_dataset.database'] + [tmp],
+            p = subprocess.run(['/venv/bin/python', '-c', 'import sys; sys.path.insert(0, sys.argv[1]); import lazy_dataset, lazy_dataset.database, lazy_dataset.parallel_utils'] + [tmp],
                                capture_output=True, text=True, cwd='/tmp', env=env)
             res = dict(id=mid, kind=s['kind'], line=s['line'], fn=s.get('fn'), new=newline.strip()[:110])
             if p.returncode:
